@@ -104,6 +104,21 @@ def proof_obligations(pid):
     return res
 
 
+def run_coqchk():
+    """independent re-check of every compiled Props file and everything it depends on (thorough tier of C07 only)"""
+    mods = sorted("CR.Props." + f[:-2] for f in os.listdir(os.path.join(COQ, "Props")) if f.endswith(".v") and os.path.exists(os.path.join(COQ, "Props", f + "o")))
+    t0 = time.time()
+    p = subprocess.run(["timeout", "3000", "coqchk", "-silent", "-o", "-Q", ".", "CR"] + mods, cwd=COQ,
+                       stdout=subprocess.PIPE, stderr=subprocess.STDOUT, text=True)
+    out = p.stdout
+    axioms = re.findall(r"(?m)^\s{4}(\S+)\s*$", out.split("* Axioms:")[1].split("* Constants")[0]) if "* Axioms:" in out else []
+    foreign = [a for a in axioms if not re.match(r"Coq\.(Numbers\.Cyclic\.Int63\.(PrimInt63|Uint63)|Floats\.PrimFloat)\.", a)]
+    return dict(rc=p.returncode, wall_s=round(time.time() - t0, 1), modules=mods, axioms_total=len(axioms),
+                axioms_outside_int63_float_primitives=foreign,
+                type_in_type="type-in-type: <none>" in out, unsafe_fix="unsafe (co)fixpoints: <none>" in out,
+                positivity="positivity is assumed: <none>" in out)
+
+
 def load_known(pid):
     try:
         data = json.load(open(KNOWN))
@@ -181,6 +196,11 @@ def main():
     # (a) proof obligations
     po = proof_obligations(pid)
     scan = scan_sources()
+    chk = None
+    if tier == "thorough" and pid == "C07" and po["ok"]:
+        chk = run_coqchk()
+        if chk["rc"] != 0 or chk["axioms_outside_int63_float_primitives"] or not (chk["type_in_type"] and chk["unsafe_fix"] and chk["positivity"]):
+            po["problems"].append("coqchk: %s" % json.dumps(chk)[:600])
     proof_ok = po["ok"] and not po["problems"] and not scan
     # (b)+(c) correspondence and search
     try:
@@ -240,6 +260,7 @@ def main():
             distribution=ctx.dist,
             known_findings_still_failing=[w for _, w in ctx.known_hits],
             notes=ctx.notes,
+            coqchk=chk,
             exhaustive=False),
         assumptions=getattr(mod, "ASSUMPTIONS", []),
         wall_s=round(wall, 2), violations=nviol)
